@@ -43,6 +43,8 @@ CONSTANTS DivMapped,              \* "/" maps to an MX method that exists       
           IfStmtSequential,       \* if-statement branches run sequentially      (as built: merged per variable, in order of first appearance)
           ExploreOptions          \* TRUE: every program under all 8 (unroll_loops, inline_functions, expand_mx) sets (C12)
 
+ASSUME RatSane        \* Rat.tla: field / order laws of the exact arithmetic on a small grid, checked by TLC at start-up
+
 -----------------------------------------------------------------------------
 (* matrices as CasADi stores them: r x c, elements column-major *)
 MM(r, c, d) == [r |-> r, c |-> c, d |-> d]
@@ -583,8 +585,9 @@ VARIABLES item,    \* the program [fam, prog, extra]
           decl,    \* declarative side: per translated equation, per point, its rows
           gen,     \* operational side, same layout
           env,     \* the evaluation points: per point the value of every variable, der(.) and time
-          opt      \* the representation options this run of the generator uses
-vars == <<item, pc, k, decl, gen, env, opt>>
+          opt,     \* the representation options this run of the generator uses
+          cur      \* self.src[equation]: the lowered form of the equation translated last
+vars == <<item, pc, k, decl, gen, env, opt, cur>>
 
 P0 == item.prog
 Pts == 1..NPts
@@ -601,15 +604,15 @@ Shard == IF NShards = 1 THEN ItemSet
 Init == /\ item \in Shard /\ pc = "translate" /\ k = 0 /\ decl = <<>> /\ gen = <<>>
         /\ env = [t \in Pts |-> EnvAt(item.prog, t)]
         /\ opt \in OptSets
+        /\ cur = LRaise("nothing translated yet")
 
 (* exitEquation / exitIfEquation / exitForEquation for the next equation of the walk *)
 TranslateEquation ==
     /\ pc = "translate" /\ k < Len(AllEqs)
-    /\ LET eq  == AllEqs[k + 1]
-           lw  == LowerEq(eq, G(P0, NoLoop, FALSE))
-           low == IF IsRaise(lw) THEN lw ELSE Represent(lw, opt, P0)
-       IN  /\ decl' = Append(decl, [t \in Pts |-> DeclRows(eq, P0, env[t])])
-           /\ gen'  = Append(gen,  [t \in Pts |-> GenRows(low, P0, env[t])])
+    /\ cur' = LET lw == LowerEq(AllEqs[k + 1], G(P0, NoLoop, FALSE))
+              IN  IF IsRaise(lw) THEN lw ELSE Represent(lw, opt, P0)
+    /\ decl' = Append(decl, [t \in Pts |-> DeclRows(AllEqs[k + 1], P0, env[t])])
+    /\ gen'  = Append(gen,  [t \in Pts |-> GenRows(cur', P0, env[t])])
     /\ k' = k + 1 /\ UNCHANGED <<item, pc, env, opt>>
 
 Rejects(side) == \E i \in DOMAIN side : side[i][1].st = "raise"
@@ -651,7 +654,7 @@ ModelSide ==
      agrees |-> RejectsIffIndexBadAtDone /\ GenValueAgreesAtDone]
 
 (* exitClass: the translated equations become model.equations / initial_equations; the oracle line is printed *)
-Finish == /\ pc = "translate" /\ k = Len(AllEqs) /\ pc' = "done" /\ UNCHANGED <<item, k, decl, gen, env, opt>>
+Finish == /\ pc = "translate" /\ k = Len(AllEqs) /\ pc' = "done" /\ UNCHANGED <<item, k, decl, gen, env, opt, cur>>
           /\ PrintT(<<"PROG", ToJson([prog |-> P0, tags |-> TagsOf(item), expect |-> Expect, model |-> ModelSide, opt |-> opt,
                                       allpts |-> [t \in Pts |-> [t |-> t, env |-> env[t]]]])>>)
 
